@@ -2,7 +2,7 @@
    geometry tokens (integer coordinates): PT E | PT x y | LS n x y.. | LR n x y.. | PG k (n x y..)*k | MPT m (E | x y)*m
      | MLS m (n x y..)*m | MPG m (k (n x y..)*k)*m | GC m geom*m
    requests:
-     FIX <L|S> <keep 0|1> <input valid 0|1> | <input> | <result>
+     FIX <L|S> <keep 0|1> <input valid 0|1> <tn> <td> | <input> | <result>       (squared tolerance tn/td for leaving out witnesses)
          -> valid dim env equal vertices area keep f10key   (1/0; '-' when the clause does not apply)  [first broken validity rule]
      TABLE <keep> <kind P|L|R|A> <n> <area 0|1> <ringvalid 0|1>  -> 0 empty | 1 point | 2 line | 3 ring | 4 area *)
 let zs = z_of_string
@@ -39,15 +39,16 @@ let () =
       match List.map String.trim (String.split_on_char '|' line) with
       | [hd; g; r] ->
         (match words hd with
-         | ["FIX"; m; keep; vin] ->
+         | ["FIX"; m; keep; vin; tn; td] ->
+           let tn = zs tn and td = zs td in
            let (g, _) = take_geom (words g) and (r, _) = take_geom (words r) in
            let keep = keep = "1" and vin = vin = "1" in
            let st = m = "S" in
            let detail = (match valid_detail false r with None -> "" | Some (ru, _) -> " rule=" ^ string_of_int (int_of_z (rule_code ru))) in
            print_endline (String.concat " " [b2s (c_valid r); b2s (c_dim g r); b2s (c_env g r);
-                                             (if vin then b2s (c_equal g r) else "-");
+                                             (if vin then b2s (c_equal tn td g r) else "-");
                                              (if st then "-" else b2s (c_vertices g r));
-                                             (if st then b2s (c_area g r) else "-");
+                                             (if st then b2s (c_area tn td g r) else "-");
                                              (if st then b2s (check_keep_tree keep g r) else "-");
                                              b2s (f10_key g)] ^ detail)
          | _ -> print_endline "?")
